@@ -72,12 +72,21 @@ func histories(t *testing.T, shard int) {
 		repeated := false
 		for len(files) < nf {
 			nb := 1 + rng.Intn(4)
+			if rng.Intn(4) == 0 {
+				nb = 5 + rng.Intn(2)
+			}
 			blocks := make([]int, nb)
 			for k := range blocks {
 				blocks[k] = rng.Intn(7)
 			}
 			if nb >= 3 && rng.Intn(3) == 0 {
 				blocks[nb-1] = blocks[0]
+				repeated = true
+			}
+			if nb >= 4 && rng.Intn(2) == 0 {
+				// a repetition in the middle, followed by further distinct chunks (A B C B D E)
+				b := 1 + rng.Intn(nb-2)
+				blocks[b] = blocks[rng.Intn(b)]
 				repeated = true
 			}
 			last := []int{fsim.CS, 1000, 70000}[rng.Intn(3)]
